@@ -120,3 +120,235 @@ fn c17_non_mutable_puts_never_conflict() {
     core::mem::forget(req);
     core::mem::forget(c);
 }
+
+// =============================================================================================
+// C18: address votes of a finished lookup
+// =============================================================================================
+use crate::core::iterative_query::verif_kani as iq;
+
+#[kani::proof]
+#[kani::unwind(22)]
+#[kani::stub(std::time::Instant::now, clock::mock_now)]
+#[kani::stub(getrandom::fill, fill_const)]
+fn c18_a_newly_voted_public_address_is_reported_for_confirmation() {
+    let mut c = core(kani::any());
+    let old = SocketAddrV4::new(kani::any::<u32>().into(), kani::any());
+    let had: bool = kani::any();
+    c.public_address = if had { Some(old) } else { None };
+    let was_firewalled: bool = kani::any();
+    c.firewalled = was_firewalled;
+    let mut q = iq::query(0, id1(0x10));
+    let voted: bool = kani::any();
+    let new = SocketAddrV4::new(kani::any::<u32>().into(), kani::any());
+    if voted {
+        iq::set_votes(&mut q, Some((new, 3)), None);
+    }
+    let r = c.update_address_votes_from_iterative_query(&q);
+    if !voted {
+        assert!(r.is_none() && c.public_address == (if had { Some(old) } else { None }) && c.firewalled == was_firewalled, "no votes: nothing changes");
+    } else if had && old == new {
+        assert!(r.is_none() && c.firewalled == was_firewalled && c.public_address == Some(new), "the same address again: nothing to confirm");
+    } else {
+        assert!(r == Some(new), "C18: a different voted address is returned so that the node pings itself there");
+        assert!(c.firewalled && c.public_address == Some(new), "C18: until the self-ping arrives the node counts as firewalled");
+    }
+    kani::cover!(voted && had && old != new);
+    kani::cover!(voted && had && old == new);
+    kani::cover!(voted && !had);
+    core::mem::forget(q);
+    core::mem::forget(c);
+}
+
+// =============================================================================================
+// C20: statistics == aggregate over the cached lookups; cleanup removes exactly the done queries
+// =============================================================================================
+fn stats(t: &RoutingTable) -> (usize, f64, usize, f64, usize) {
+    crate::common::routing_table::verif_kani::stats(t)
+}
+
+fn cached(kind: u8, target: Id, d: f64, r: f64, subnets: u8) -> CachedIterativeQuery {
+    let request_type = match kind {
+        0 => RequestTypeSpecific::FindNode(crate::common::FindNodeRequestArguments { target }),
+        1 => RequestTypeSpecific::GetPeers(crate::common::GetPeersRequestArguments { info_hash: target }),
+        2 => RequestTypeSpecific::GetSignedPeers(crate::common::GetPeersRequestArguments { info_hash: target }),
+        _ => RequestTypeSpecific::GetValue(crate::common::GetValueRequestArguments { target, seq: None, salt: None }),
+    };
+    CachedIterativeQuery { closest_responding_nodes: Box::new([]), dht_size_estimate: d, responders_dht_size_estimate: r, subnets, request_type }
+}
+
+/// contribution of one cached lookup to (basic table, signed-peers table) statistics:
+/// find_node: basic.count += 1, basic.sum += d;  get_signed_peers: all five on the signed table;
+/// other gets: all five on the basic table
+fn contrib(kind: u8, d: f64, r: f64, s: u8) -> ((usize, f64, usize, f64, usize), (usize, f64, usize, f64, usize)) {
+    match kind {
+        0 => ((1, d, 0, 0.0, 0), (0, 0.0, 0, 0.0, 0)),
+        2 => ((0, 0.0, 0, 0.0, 0), (1, d, 1, r, s as usize)),
+        _ => ((1, d, 1, r, s as usize), (0, 0.0, 0, 0.0, 0)),
+    }
+}
+
+static mut EST_CLOSEST: f64 = 0.0;
+static mut EST_RESP: f64 = 0.0;
+static mut SUBNETS: u8 = 0;
+static mut EST_CALLS: u32 = 0;
+fn stub_dht_size_estimate(_c: &ClosestNodes) -> f64 {
+    // first call: closest, second call: responders (the order in cache_iterative_query)
+    unsafe {
+        EST_CALLS += 1;
+        if EST_CALLS % 2 == 1 { EST_CLOSEST } else { EST_RESP }
+    }
+}
+fn stub_subnets_count(_c: &ClosestNodes) -> u8 {
+    unsafe { SUBNETS }
+}
+fn stub_valid(id: &Id, ip: std::net::Ipv4Addr) -> bool {
+    (id.as_bytes()[19] ^ ip.octets()[3]) & 1 == 1
+}
+use crate::common::ClosestNodes;
+
+/// One cache_iterative_query on a cache holding 0 or 1 entries (same or different target), small
+/// integer-valued estimates (exact in f64): afterwards the statistics of both tables equal the
+/// aggregate over the cache; counts never underflow.
+#[kani::proof]
+#[kani::unwind(22)]
+#[kani::stub(std::time::Instant::now, clock::mock_now)]
+#[kani::stub(getrandom::fill, fill_const)]
+#[kani::stub(ClosestNodes::dht_size_estimate, stub_dht_size_estimate)]
+#[kani::stub(ClosestNodes::subnets_count, stub_subnets_count)]
+#[kani::stub(Id::is_valid_for_ip, stub_valid)]
+fn c20_stats_equal_the_aggregate_over_cached_lookups() {
+    let mut c = core(true);
+    let target = id1(0x10);
+    // pre-state: optionally one cached lookup (for the same target or another one), with the
+    // statistics that the invariant prescribes for it
+    let has_prev: bool = kani::any();
+    let prev_same_target: bool = kani::any();
+    let pk: u8 = kani::any::<u8>() % 4;
+    let (pd, pr, ps): (u8, u8, u8) = (kani::any(), kani::any(), kani::any());
+    let prev_target = if prev_same_target { target } else { id1(0x90) };
+    if has_prev {
+        c.cached_iterative_queries.put(prev_target, cached(pk, prev_target, pd as f64, pr as f64, ps));
+        let (b, s) = contrib(pk, pd as f64, pr as f64, ps);
+        crate::common::routing_table::verif_kani::set_stats(&mut c.routing_table, b);
+        crate::common::routing_table::verif_kani::set_stats(&mut c.signed_peers_routing_table, s);
+    }
+    // the finished lookup
+    let k: u8 = kani::any::<u8>() % 4;
+    let (d, r, s): (u8, u8, u8) = (kani::any(), kani::any(), kani::any());
+    unsafe {
+        EST_CLOSEST = d as f64;
+        EST_RESP = r as f64;
+        SUBNETS = s;
+    }
+    let mut q = iq::query(k, target);
+    let online: bool = kani::any();
+    if online {
+        iq::push_candidate(&mut q, crate::common::node::verif_kani::node_aged(id1(0x20), SocketAddrV4::new(5u32.into(), 5), 0));
+    }
+    c.cache_iterative_query(&q, &[]);
+
+    // expected aggregate
+    let keep_prev = has_prev && !(online && prev_same_target);
+    let (pb, psg) = if keep_prev { contrib(pk, pd as f64, pr as f64, ps) } else { ((0, 0.0, 0, 0.0, 0), (0, 0.0, 0, 0.0, 0)) };
+    let (nb, nsg) = if online { contrib(k, d as f64, r as f64, s) } else { ((0, 0.0, 0, 0.0, 0), (0, 0.0, 0, 0.0, 0)) };
+    let want_b = (pb.0 + nb.0, pb.1 + nb.1, pb.2 + nb.2, pb.3 + nb.3, pb.4 + nb.4);
+    let want_s = (psg.0 + nsg.0, psg.1 + nsg.1, psg.2 + nsg.2, psg.3 + nsg.3, psg.4 + nsg.4);
+    assert!(stats(&c.routing_table) == want_b, "C20: the basic table's statistics equal the aggregate over the cached lookups");
+    assert!(stats(&c.signed_peers_routing_table) == want_s, "C20: the signed-peers table's statistics equal the aggregate over the cached lookups");
+    assert!(c.cached_iterative_queries.len() == (if keep_prev { 1 } else { 0 }) + (if online { 1 } else { 0 }));
+    kani::cover!(has_prev && prev_same_target && online && pk != k, "same target looked up again with another request kind");
+    kani::cover!(has_prev && prev_same_target && online && pk == 0 && k == 0, "the node's own id refreshed again");
+    kani::cover!(has_prev && !prev_same_target && online);
+    kani::cover!(!online && has_prev);
+    core::mem::forget(q);
+    core::mem::forget(c);
+}
+
+/// eviction path: decrement_cached_iterative_query_stats(evicted entry) subtracts exactly that entry's contribution
+#[kani::proof]
+#[kani::unwind(22)]
+#[kani::stub(std::time::Instant::now, clock::mock_now)]
+#[kani::stub(getrandom::fill, fill_const)]
+fn c20_evicting_a_cached_lookup_subtracts_exactly_its_contribution() {
+    let mut c = core(true);
+    let k: u8 = kani::any::<u8>() % 4;
+    let (d, r, s): (u8, u8, u8) = (kani::any(), kani::any(), kani::any());
+    let k2: u8 = kani::any::<u8>() % 4;
+    let (d2, r2, s2): (u8, u8, u8) = (kani::any(), kani::any(), kani::any());
+    let (b1, s1) = contrib(k, d as f64, r as f64, s);
+    let (b2, sg2) = contrib(k2, d2 as f64, r2 as f64, s2);
+    crate::common::routing_table::verif_kani::set_stats(&mut c.routing_table, (b1.0 + b2.0, b1.1 + b2.1, b1.2 + b2.2, b1.3 + b2.3, b1.4 + b2.4));
+    crate::common::routing_table::verif_kani::set_stats(&mut c.signed_peers_routing_table, (s1.0 + sg2.0, s1.1 + sg2.1, s1.2 + sg2.2, s1.3 + sg2.3, s1.4 + sg2.4));
+    c.decrement_cached_iterative_query_stats(Some(cached(k, id1(0x10), d as f64, r as f64, s)));
+    assert!(stats(&c.routing_table) == b2 && stats(&c.signed_peers_routing_table) == sg2, "C20: eviction subtracts what caching added, from the same table");
+    c.decrement_cached_iterative_query_stats(None);
+    assert!(stats(&c.routing_table) == b2 && stats(&c.signed_peers_routing_table) == sg2);
+    kani::cover!(k == 0 && k2 == 2);
+    kani::cover!(k == 2);
+    core::mem::forget(c);
+}
+
+/// cleanup_done_queries removes exactly the listed lookups and puts (no per-call state remains for
+/// a finished call) and leaves the others
+#[kani::proof]
+#[kani::unwind(22)]
+#[kani::stub(std::time::Instant::now, clock::mock_now)]
+#[kani::stub(getrandom::fill, fill_const)]
+#[kani::stub(ClosestNodes::dht_size_estimate, stub_dht_size_estimate)]
+#[kani::stub(ClosestNodes::subnets_count, stub_subnets_count)]
+fn c20_cleanup_removes_exactly_the_finished_queries() {
+    let mut c = core(true);
+    let a = id1(0x10);
+    let b = id1(0x90);
+    c.iterative_queries.insert(a, iq::query(3, a));
+    c.iterative_queries.insert(b, iq::query(1, b));
+    c.put_queries.insert(a, PutQuery::new(mutable_request(a, 1, 1, None), None));
+    c.put_queries.insert(b, PutQuery::new(mutable_request(b, 1, 1, None), None));
+    let get_a_done: bool = kani::any();
+    let put_b_done: bool = kani::any();
+    let done_gets: Vec<(Id, Box<[Node]>)> = if get_a_done { vec![(a, Box::new([]))] } else { vec![] };
+    let done_puts: Vec<(Id, Option<PutError>)> = if put_b_done { vec![(b, None)] } else { vec![] };
+    let r = c.cleanup_done_queries(&done_gets, &done_puts);
+    assert!(r.is_none());
+    assert!(c.iterative_queries.contains_key(&a) == !get_a_done && c.iterative_queries.contains_key(&b), "C20: a finished lookup is dropped, an unfinished one kept");
+    assert!(c.put_queries.contains_key(&b) == !put_b_done && c.put_queries.contains_key(&a), "C20: a finished put is dropped, an unfinished one kept");
+    kani::cover!(get_a_done && put_b_done);
+    core::mem::forget(c);
+}
+
+// =============================================================================================
+// C14: the 5-minute maintenance round
+// =============================================================================================
+#[kani::proof]
+#[kani::unwind(163)]
+#[kani::stub(std::time::Instant::now, clock::mock_now)]
+#[kani::stub(std::time::Instant::elapsed, clock::mock_elapsed)]
+#[kani::stub(getrandom::fill, fill_const)]
+fn c14_maintenance_round_drops_stale_nodes_and_pings_the_quiet_ones() {
+    let mut c = core(true);
+    let age1: u64 = kani::any();
+    let age2: u64 = kani::any();
+    kani::assume(age1 <= 2_000_000 && age2 <= 2_000_000);
+    let n1 = crate::common::node::verif_kani::node_aged(id1(0x10), SocketAddrV4::new(11u32.into(), 11), age1);
+    let n2 = crate::common::node::verif_kani::node_aged(id1(0x20), SocketAddrV4::new(12u32.into(), 12), age2);
+    crate::common::routing_table::verif_kani::place_pub(&mut c.routing_table, n1);
+    crate::common::routing_table::verif_kani::place_pub(&mut c.signed_peers_routing_table, n2);
+    let to_ping = c.check_nodes_to_ping_and_remove_stale_nodes();
+    let stale1 = age1 > 900_000;
+    let stale2 = age2 > 900_000;
+    assert!(c.routing_table.size() == if stale1 { 0 } else { 1 }, "C14: a node not heard from for more than 15 minutes is removed; a fresher one stays");
+    assert!(c.signed_peers_routing_table.size() == if stale2 { 0 } else { 1 });
+    let ping1 = !stale1 && age1 > 10_000;
+    let ping2 = !stale2 && age2 > 10_000;
+    assert!(to_ping.len() == (if ping1 { 1 } else { 0 }) + (if ping2 { 1 } else { 0 }), "C14: exactly the remaining nodes that have been quiet for more than 10 s are pinged");
+    if ping1 {
+        assert!(to_ping[0].port() == 11);
+    }
+    if ping2 {
+        assert!(to_ping[to_ping.len() - 1].port() == 12);
+    }
+    kani::cover!(stale1 && !stale2);
+    kani::cover!(ping1 && ping2);
+    core::mem::forget(to_ping);
+    core::mem::forget(c);
+}
